@@ -430,9 +430,15 @@ def r11(ctx, facts):
     c04_r3(ctx, facts)
 
 
+def r12(ctx, facts):
+    """shared with C15 (stated there): every tablet learnt replaces what it overlaps - a re-delivered range with new replicas is never ignored, so the tablet that routes a token is the latest one"""
+    from .c15 import r1 as c15_r1
+    c15_r1(ctx, facts)
+
+
 def check(ctx):
     facts = inline_view(ctx.facts("default"))
-    for fn in (r1, r2, r3, r4, r5, r6, r7, r8, r9, r10, r11):
+    for fn in (r1, r2, r3, r4, r5, r6, r7, r8, r9, r10, r11, r12):
         try:
             fn(ctx, facts)
         except AnchorLost as ex:
